@@ -49,8 +49,11 @@ def build_world(lang):
     G2 = cls('G2', [g1, TP('R', INV, None)])
     co = TP('X', OUT, None)
     M = cls('M', [co, TP('Z', INV, Number)])
+    zw = TP('W', INV, None)
+    zx = TP('X', INV, Cv.get_type().new([zw]))
+    Z3 = cls('Z3', [zw, zx, TP('Y', INV, Cv.get_type().new([zx]))])     # chain of parameterized bounds
     world = {'factory': f, 'decls': decls, 'roles': {'Any': Any, 'Number': Number, 'Integer': Integer, 'String': String},
-             'generic': ['A', 'B', 'Cv', 'Kc', 'E', 'F', 'H', 'G2', 'M']}
+             'generic': ['A', 'B', 'Cv', 'Kc', 'E', 'F', 'H', 'G2', 'M', 'Z3']}
     base = [Number, Integer, String, P, Q]
     pools = {
         'builtins+simple': base,
@@ -348,7 +351,7 @@ def run(tier, seed, jobs):
     res = Result(PROP, tier, seed, level='model_checking')
     cap = 4000 if tier == 'quick' else 40000
     langs = ('kotlin', 'java') if tier == 'quick' else ('kotlin', 'java', 'groovy', 'scala')
-    names = ['A', 'B', 'Cv', 'Kc', 'E', 'F', 'H', 'G2', 'M']
+    names = ['A', 'B', 'Cv', 'Kc', 'E', 'F', 'H', 'G2', 'M', 'Z3']
     tasks = [(lang, [n], cap) for lang in langs for n in names]
     tasks = common.rotate(tasks, seed)
     found, stats = {}, {}
